@@ -22,6 +22,7 @@ import (
 
 	"verifmc/cmd/c02/certs"
 	"verifmc/internal/ev"
+	"verifmc/internal/nohb"
 	"verifmc/internal/xgen"
 )
 
@@ -32,6 +33,10 @@ func mkUnits(quick bool) []certs.Unit {
 }
 
 func main() {
+	if nohb.IsWorker() {
+		nohb.WorkerMain(reentrantOps(), certs.RepoDir())
+		return
+	}
 	if certs.IsWorker(id) {
 		certs.WorkerMain(id, &handler{}, mkUnits)
 		return
@@ -120,6 +125,7 @@ func run(c *ev.Ctx) {
 	res := certs.RunPool(c, certs.PoolConfig{ID: id, Modes: []string{"strict", "permissive"}, Procs: procs, Deadline: c.Start.Add(budget), Ops: opTable},
 		units, certs.Order(units, c.Seed))
 	report(c, units, res)
+	reentrantPhase(c)
 }
 
 // lightNote describes the reduced operation set of the units marked Light (thorough tier only).
